@@ -842,6 +842,16 @@ func (ls *LanceroSource) distributeData(buffersMsg BuffersChanType) *dataBlock {
 	nchan := len(datacopies)
 	block.segments = make([]DataSegment, nchan)
 
+	// How many frames were lost in front of this block (estimated from the card's time stamps).
+	// Needed before the external-trigger scan: the block's frames are numbered from nextFrameNum+droppedFrames.
+	var droppedFrames int
+	if dataDropDetected {
+		droppedDuration := lastSampleTime.Sub(ls.previousLastSampleTime)
+		droppedFrames = roundint(droppedDuration.Seconds() * ls.sampleRate)
+		ProblemLogger.Printf("Dropped %d lancero frames over Δt=%v", droppedFrames, droppedDuration)
+	}
+	firstFrameNum := ls.nextFrameNum + FrameIndex(droppedFrames)
+
 	// The external trigger is encoded in the second least significant bit of the feedback
 	// The information is redundant across columns, so we should only scan a single column
 	// The external trigger bit resolution is the row rate, eg for each row we get a 0 or a 1 representing
@@ -854,7 +864,7 @@ func (ls *LanceroSource) distributeData(buffersMsg BuffersChanType) *dataBlock {
 	// card happens to have device number 0: that one may be absent, or present but not configured.
 	nrows := ls.active[0].nrows
 	ncols := ls.active[0].ncols
-	for frame := 0; frame < framesUsed; frame++ { // frame within this block, need to add ls.nextFrameNum for consistent timing across blocks
+	for frame := 0; frame < framesUsed; frame++ { // frame within this block, need to add firstFrameNum for consistent timing across blocks
 		for row := 0; row < nrows; row++ { // search the first column for frame bit level triggers
 			// datacopies is still in READOUT order here (r0c0, r0c1, ..., r1c0, ...): the feedback
 			// word of column 0 in this row is the (row*ncols)-th word of the frame.
@@ -867,19 +877,12 @@ func (ls *LanceroSource) distributeData(buffersMsg BuffersChanType) *dataBlock {
 					// Todo: if this panic ever happens, we'd need to add code to track subframe timing PER DEVICE, rather
 					// than at the level of the overall LanceroSource. That would suck, so don't solve it unless needed.
 				}
-				externalTriggerRowcounts = append(externalTriggerRowcounts, (int64(frame)+int64(ls.nextFrameNum))*int64(nrows)+int64(row))
+				externalTriggerRowcounts = append(externalTriggerRowcounts, (int64(frame)+int64(firstFrameNum))*int64(nrows)+int64(row))
 			}
 			ls.externalTriggerLastState = externalTriggerState
 		}
 	}
 	block.externalTriggerRowcounts = externalTriggerRowcounts
-
-	var droppedFrames int
-	if dataDropDetected {
-		droppedDuration := lastSampleTime.Sub(ls.previousLastSampleTime)
-		droppedFrames = roundint(droppedDuration.Seconds() * ls.sampleRate)
-		ProblemLogger.Printf("Dropped %d lancero frames over Δt=%v", droppedFrames, droppedDuration)
-	}
 
 	for channelIndex := 0; channelIndex < nchan; channelIndex++ {
 		data := datacopies[ls.chan2readoutOrder[channelIndex]]
@@ -894,7 +897,7 @@ func (ls *LanceroSource) distributeData(buffersMsg BuffersChanType) *dataBlock {
 			rawData:         data,
 			framesPerSample: 1, // This will be changed later if decimating
 			framePeriod:     ls.samplePeriod,
-			firstFrameIndex: ls.nextFrameNum + FrameIndex(droppedFrames),
+			firstFrameIndex: firstFrameNum,
 			firstTime:       firstTime,
 			signed:          !isFeedbackChannel,
 			droppedFrames:   droppedFrames,
